@@ -454,7 +454,7 @@ def write_histories(path, hists):
 
 def run_pipeline(kqh, drv, hists, name, timeout=900):
     """returns dict: obs_path, lines per history, driver output parsed"""
-    wd = os.path.join(KQB, "run")
+    wd = os.path.join(KQB, "run-%d" % os.getpid())      # per process: checks of C13, C17 and C18 may run at the same time
     os.makedirs(wd, exist_ok=True)
     hp, op = os.path.join(wd, name + ".hist"), os.path.join(wd, name + ".obs")
     write_histories(hp, hists)
